@@ -2,6 +2,7 @@ SPECIFICATION Spec
 CONSTANTS
   MaxBytes = 5
   Cuts = {"transit"}
+  AcceptLeavesDeadline = FALSE
   MaxNotices = 1
   NoticeEndsStream = FALSE
   OriginErrorFatal = TRUE
@@ -9,6 +10,7 @@ INVARIANTS
   Prefix
   EOFOnlyAfterAll
   NoSpontaneousClose
+  NoReadErrorWhileUp
   NoAbort
 PROPERTIES
   Complete
